@@ -7,8 +7,10 @@ import TinsModel.Basic.Seq32
     is written with an explicit `wrap32` (`last_ + 1`, `sack[i] - 1`, `sequence_number + length - 1`).
   * `boost::icl::interval_set<uint32_t>` is a *parameter*: a list of closed intervals kept sorted, disjoint and
     non-touching (icl joins touching intervals of a discrete domain), with `insertIvl`, `eraseIvl`,
-    `containsIvl` specified by point-set semantics (`ISet.mem`; lemmas in `Ack/Lemmas.lean`).  Its behaviour
-    (including the printed canonical form) is validated against the real icl by the correspondence run.
+    `containsIvl` specified by point-set semantics (`ISet.mem`; lemmas in `Ack/Lemmas.lean`, canonical form in
+    `Ack/Canon.lean`).  The assumption about icl is stated as an explicit contract in `Ack/Icl.lean` (`IclContract`) and
+    shown to determine every observation; that the real icl meets it (including the printed canonical form) is
+    validated by the correspondence run (`icl` op stream).
   * `AckedRange::next()` only ever builds `interval_type::closed(..)`, hence `interval_start` / `interval_end`
     (which special-case left-open / right-open bounds) reduce to `lower()` / `upper()`: `Ivl.lo` / `Ivl.hi`.
   * The two `while (range.has_next())` loops are run with fuel 3; `Lemmas.drain_fuel` shows two iterations
